@@ -191,9 +191,9 @@ def evSpan : Ev α → Option Span
   | _ => none
 
 /-- the span of a component event cuts the input at character boundaries (C04's obligation) -/
-def SpanOK (input : Str) (ev : Ev α) : Prop := ∀ sp, evSpan ev = some sp → OnBoundaries input sp
+def CompSpanOnBoundaries (input : Str) (ev : Ev α) : Prop := ∀ sp, evSpan ev = some sp → OnBoundaries input sp
 
-def SpansOK (input : Str) (evs : List (Ev α)) : Prop := ∀ ev ∈ evs, SpanOK input ev
+def SpansOK (input : Str) (evs : List (Ev α)) : Prop := ∀ ev ∈ evs, CompSpanOnBoundaries input ev
 
 /-- the invariant of the fold under which no panic site is reachable -/
 structure NP (env : Env) (s : Col α) : Prop where
@@ -510,7 +510,7 @@ theorem inStepComponent_np (env : Env) (input : Str) (ev : Ev α) (items : List 
 
 /-- a component event inside an open step block -/
 theorem inBlockComponent_np (env : Env) (input : Str) (ev : Ev α) (s : Col α) (h : NP env s)
-    (hb : BlockRel s (some .step)) (hev : EvOK' ev) (hcomp : (evSpan ev).isSome = true) (hsp : SpanOK input ev) :
+    (hb : BlockRel s (some .step)) (hev : EvOK' ev) (hcomp : (evSpan ev).isSome = true) (hsp : CompSpanOnBoundaries input ev) :
     NP env (inBlockComponent env input ev s).2 ∧ BlockRel (inBlockComponent env input ev s).2 (some .step) := by
   have hinv := inBlockComponent_inv env input ev s h.inv hev.evOK
   rcases hb with ⟨items, h1, -⟩ | ⟨b, h1, h2⟩
@@ -538,7 +538,7 @@ theorem inBlockComponent_np (env : Env) (input : Str) (ev : Ev α) (s : Col α) 
 /-- **one event**: under the invariant, an event the bracketing automaton accepts, that is `EvOK'`
     and whose span lies on character boundaries, sets no panic flag and keeps the invariant -/
 theorem processEvent_np (env : Env) (input : Str) (ev : Ev α) (s : Col α) (o o' : Option BlockKind)
-    (h : NP env s) (hb : BlockRel s o) (hw : wbStep o ev = some o') (hev : EvOK' ev) (hsp : SpanOK input ev) :
+    (h : NP env s) (hb : BlockRel s o) (hw : wbStep o ev = some o') (hev : EvOK' ev) (hsp : CompSpanOnBoundaries input ev) :
     NP env (processEvent env input ev s).2 ∧ BlockRel (processEvent env input ev s).2 o' := by
   have hinv := processEvent_inv env input ev s h.inv hev.evOK
   cases ev with
